@@ -40,6 +40,10 @@ for d in sorted(os.listdir(root)):
         "caught_by": sorted(k for k, v in st.items() if k != "baseline" and v.get("exit") == 1) or old.get("caught_by", []),
         "first_detail": {k: (v.get("detail") or [""])[0][:300] for k, v in st.items() if k != "baseline" and v.get("exit") == 1},
     }
+    r1p = os.path.join(p, "seedtest_run1.json")
+    if os.path.exists(r1p):
+        r1 = json.load(open(r1p))
+        meta["first_run"] = {"note": "checks as committed before the change was examined (see DESIGN 14)", "caught_by": sorted(k for k, v in r1.items() if k != "baseline" and v.get("exit") == 1), "machinery_exit_2": sorted(k for k, v in r1.items() if k != "baseline" and v.get("exit") == 2)}
     for keep in ("history", "caught_by_now"):
         if old.get(keep):
             meta[keep] = old[keep]
